@@ -17,7 +17,8 @@ type Request struct {
 	Names     []string       `json:"names,omitempty"`
 	Types     []string       `json:"types,omitempty"`
 	PtrCont   bool           `json:"ptrContainer,omitempty"` // container type parameter is *S
-	Cont      string         `json:\"container,omitempty\"`  // another non-struct container type parameter: []S, map[string]S, int, **S
+	Cont      string         `json:"container,omitempty"`    // another non-struct container type parameter: []S, map[string]S, int, **S
+	Shared    bool           `json:"shared,omitempty"`       // C01: the lens value is also used by two goroutines at once on two structures
 	HiddenCap bool           `json:"hiddenCap,omitempty"`    // names passed as names[:k] with the missing ones behind the capacity
 	Given     int            `json:"given,omitempty"`        // number of names actually passed (too few names)
 	Expect    string         `json:"expect"`                 // focus | panic | panicOrCorrect
@@ -260,6 +261,9 @@ func GenRequests(t *rapid.T, sh *Shape) []Request {
 			}
 		}
 		r := Request{Prop: "C01", API: api, N: 1, ByName: true, Names: []string{k}, Types: []string{l[i].Type}, Expect: "focus", Foci: []int{i}, NT: nt([]int{i}), Classes: append(sh.entryClasses(l, i), "by-name", api)}
+		if api == "product" && len(nameOK) <= 2 {
+			r.Shared = true
+		}
 		reqs = append(reqs, r)
 		if dup >= 2 {
 			r2 := r
